@@ -408,6 +408,7 @@ Proof.
   cbn [option_map] in H1, H2.
   assert (E1 : to_instant c1 = i1) by congruence. assert (E2 : to_instant c2 = i2) by congruence.
   rewrite E1 in N1. rewrite E2 in N2.
+  destruct (year_inrange_b i1); [|discriminate N1]. destruct (year_inrange_b i2); [|discriminate N2].
   assert (F1 : n1 = format_instant i1) by congruence. assert (F2 : n2 = format_instant i2) by congruence.
   rewrite F1, F2. apply normalized_sorts_chronologically; assumption.
 Qed.
